@@ -39,6 +39,8 @@ func enumLit(kind string, v int) string {
 	switch kind {
 	case "float":
 		return fmt.Sprintf("%d.5", v)
+	case "floatclose":
+		return fmt.Sprintf("1.000000%d", v)
 	case "string":
 		return fmt.Sprintf("%q", string(rune('x'+v%3))+fmt.Sprint(v/3))
 	}
@@ -47,7 +49,7 @@ func enumLit(kind string, v int) string {
 
 func enumDecl(pkg, kind string, ms []member) string {
 	var b strings.Builder
-	under := map[string]string{"float": "float64", "string": "string"}[kind]
+	under := map[string]string{"float": "float64", "floatclose": "float64", "string": "string"}[kind]
 	if under == "" {
 		under = "int"
 	}
@@ -299,6 +301,16 @@ func cmdEnum(args []string) {
 				for cand := 0; cand < 10; cand++ {
 					if tok == "#"+strings.Trim(enumLit(kind, cand), "\"") {
 						v = cand
+					}
+					if kind == "floatclose" {
+						// floats come back in their shortest spelling: compare the numbers
+						var got, want float64
+						if _, e1 := fmt.Sscanf(strings.TrimPrefix(tok, "#"), "%g", &got); e1 == nil {
+							fmt.Sscanf(enumLit(kind, cand), "%g", &want)
+							if got == want {
+								v = cand
+							}
+						}
 					}
 				}
 			}
